@@ -27,6 +27,7 @@ def scripts_for(case):
             text = "select %s_%d " % (tag, k)
             return any(("err" in r or r.get("exit_before_reply")) and r.get("match") and r["match"] in text for r in case["rules"])
         script, used, conn = [], [], 0
+        names = {}
         k = 0
         lines = body.split("\n")
         i = 0
@@ -34,7 +35,8 @@ def scripts_for(case):
         while i < len(lines) and not stop:
             l = lines[i]
             if l.startswith("connection "):
-                conn = 1
+                nm = l.split()[1]
+                conn = 0 if nm == "default" else names.setdefault(nm, len(names) + 1)
             elif l.startswith("statement ") or l.startswith("query "):
                 k += 1
                 if conn not in used:
